@@ -549,9 +549,12 @@ impl TypeChecker {
             S::Unreachable(_) => Ok(None),
 
             S::Blob { .. } | S::Enum { .. } | S::ExternalDefinition { .. } => {
-                unreachable!(
-                    "Illegal inner statement at {:?}! Parser should have caught this",
-                    span
+                // Name resolution lets these through when a global with the same name exists.
+                err_type_error!(
+                    self,
+                    span,
+                    TypeError::Exotic,
+                    "Blobs, enums and externals can only be declared at the top level"
                 )
             }
         }
